@@ -46,6 +46,39 @@ def reserved_keys_overwritten(name, engine_re):
     return allof(precedes(f, REM, ENG), follows(f, MAP_ID, REM, exit="any", exit_ev=ENG))
 
 
+def _rem_key(key):
+    import vlib.mir as _M
+    from vlib.mirflow import origin as _o
+
+    def also(fn, b, _txt):
+        a = _M._split_top(b.args)
+        return len(a) > 1 and ('"%s"' % key) in _o(fn, a[1])
+    return Ev(r"= HashMap::<String, String>::remove::<str>\(", kind="call", also=also, name='metadata.remove("%s")' % key)
+
+
+def each_reserved_key_removed(name, sink, sink_is_exit=False):
+    """Every one of the three reserved keys is removed from the client's metadata before `sink` (the engine write, or the
+    push into the engine batch).  Which key a `remove` call targets is read from the provenance of its argument."""
+    f = RPC(name)
+    cs = []
+    for k in ("__tenant_id__", "__tenant_idx__", "__namespace__"):
+        ev = _rem_key(k)
+
+        def one(F, ev=ev, k=k):
+            fc = FnCheck(F, f, containing=sink)
+            if fc.fn is None:
+                return fc.missing()
+            if fc.count(ev) == 0 and fc.count(sink) > 0:
+                r = fc.reachable(sink)
+                if r.verdict == "holds":
+                    return Result("violated", "%s never removes the client-supplied reserved key %s before %s: a client can forge it on documents that do not already carry a stored value" % (name, k, sink.name),
+                                  queries=r.queries, seconds=r.seconds, sample={"fn": fc.name, "kind": "PRECEDES", "A": ev.name, "B": sink.name})
+                return r
+            return fc.precedes(ev, sink)
+        cs.append(one)
+    return allof(*cs)
+
+
 MOS = [
     MO("O10.4/guards", "every data RPC resolves the tenant, enforces the rate limit and maps the document id through the range-checked map_doc_id (successfully) before any engine call",
        allof(*[rpc_guard(n) for n in ("insert", "bulk_insert", "query", "delete", "update_metadata")],
@@ -58,12 +91,16 @@ MOS = [
              lambda F: _per_item_mapped(F),
              precedes(RPC("batch_delete"), TENANT_CTX, ENGINE), precedes(RPC("batch_delete"), RATE, ENGINE)),
        functions=[("bin/kyrodb_server.rs", n) for n in ("insert", "bulk_insert", "bulk_load_hnsw", "query", "bulk_query", "delete", "update_metadata", "batch_delete")], target="kyrodb_server"),
-    MO("O10.4/reserved_keys", "insert / bulk_insert / bulk_load_hnsw: client-supplied reserved keys are removed before the server-owned values are written and before the engine sees the metadata; responses are sanitised",
+    MO("O10.4/reserved_keys", "insert / bulk_insert / bulk_load_hnsw / update_metadata: each of the three client-supplied reserved keys is removed before the server-owned values are written and before the engine sees the metadata; responses are sanitised",
        allof(reserved_keys_overwritten("insert", r"= TieredEngine::insert\("), reserved_keys_overwritten("bulk_insert", r"= TieredEngine::insert\("),
              follows(RPC("bulk_load_hnsw"), MAP_ID, call(r"= HashMap::<String, String>::remove::<str>\(", name="metadata.remove(reserved)"), exit="any", exit_ev=BATCH_PUSH),
              lambda F: FnCheck(F, RPC("query")).reachable(SANITIZE), lambda F: FnCheck(F, RPC("bulk_query")).reachable(SANITIZE),
-             lambda F: _sanitize_removes_all(F)),
-       functions=[("bin/kyrodb_server.rs", n) for n in ("insert", "bulk_insert", "bulk_load_hnsw", "sanitize_public_metadata")], target="kyrodb_server"),
+             lambda F: _sanitize_removes_all(F),
+             each_reserved_key_removed("insert", call(r"= TieredEngine::insert\(", name="engine.insert")),
+             each_reserved_key_removed("bulk_insert", call(r"= TieredEngine::insert\(", name="engine.insert")),
+             each_reserved_key_removed("bulk_load_hnsw", BATCH_PUSH),
+             each_reserved_key_removed("update_metadata", call(r"= TieredEngine::update_metadata\(", name="engine.update_metadata"))),
+       functions=[("bin/kyrodb_server.rs", n) for n in ("insert", "bulk_insert", "bulk_load_hnsw", "update_metadata", "sanitize_public_metadata")], target="kyrodb_server"),
     MO("O10.4/ownership", "query / delete / update_metadata: the stored __tenant_idx__ is read (engine.get_metadata) before the document is served, deleted or updated",
        allof(precedes(RPC("query"), call(r"= TieredEngine::get_metadata\(", name="engine.get_metadata (ownership check)"), call(r"= TieredEngine::query_with_source\(", name="engine.query_with_source")),
              precedes(RPC("delete"), call(r"= TieredEngine::get_metadata\(", name="engine.get_metadata (ownership check)"), call(r"= TieredEngine::delete\(", name="engine.delete")),
